@@ -1102,7 +1102,7 @@ def str_method(eng, o, name, args, kwargs, node):
             return SSeq(f(s.t), "byte", "bytes")
         raise EngineError("encode(%s)" % enc)
     if name == "lstrip" and args and not is_sym(args[0]):
-        chars = args[0]
+        chars = "".join(sorted(set(args[0])))
         f = V.uf("lstrip_" + "_".join(str(ord(c)) for c in chars), V.seq_sort("char"), V.seq_sort("char"))
         r = SSeq(f(s.t), "char", "str")
         # r is a suffix of s, the removed prefix has only chars from `chars`, r does not start with one
@@ -1818,6 +1818,33 @@ def _pathlib_path(eng, args, kwargs, node):
     dot = V.to_seq(".")
     eng.register_forall(ForAll(lambda k: V.And(V.Not(V.eq(V.nth(parts, k), "")), V.Not(V.eq(V.nth(parts, k), "."))), guard=lambda k: V.And(k >= 0, k < V.L(parts)), over=parts))
     return eng.alloc("path", parts=parts, absolute=isabs, text=s0)
+
+
+def _is_alpha(ch):
+    return V.Or(V.And(ch >= 65, ch <= 90), V.And(ch >= 97, ch <= 122))
+
+
+@ext("re.match")
+def _re_match(eng, args, kwargs, node):
+    """re.match for the literal patterns used by the FUCs (assumed: `re` matches as documented)"""
+    pat, s0 = args[0], args[1]
+    if pat == "^[a-zA-Z]:":
+        if not is_sym(s0):
+            import re as _re
+
+            return _re.match(pat, s0) is not None
+        ss = V.to_seq(s0)
+        return V.And(V.L(ss) >= 2, _is_alpha(V.nth(ss, 0)), V.nth(ss, 1) == 58)
+    raise EngineError("re.match with pattern %r is not modelled" % (pat,))
+
+
+@ext("os.path.isabs", "posixpath.isabs")
+def _isabs(eng, args, kwargs, node):
+    s0 = args[0]
+    if not is_sym(s0):
+        return s0.startswith("/")
+    ss = V.to_seq(s0)
+    return V.And(V.L(ss) >= 1, V.nth(ss, 0) == 47)
 
 
 @ext("io.BytesIO", "BytesIO")
